@@ -95,10 +95,11 @@ enum {
     VC_ZOOM,
     VC_SPLITV, /* top half incompressible noise, bottom half flat: tiles of very different sizes */
     VC_SPLITH, /* left half noise, right half flat */
+    VC_STILL, /* one noisy textured picture repeated unchanged (static scenes: parameters inherited from references) */
     VC_KINDS
 };
 static const char *const v_content_names[VC_KINDS] = {
-    "flat", "extreme", "gradient", "noise", "pan", "rects", "screen", "cuts", "mix", "zoom", "splitv", "splith"};
+    "flat", "extreme", "gradient", "noise", "pan", "rects", "screen", "cuts", "mix", "zoom", "splitv", "splith", "still"};
 
 static int v_content_kind(const char *name) {
     for (int i = 0; i < VC_KINDS; i++)
@@ -180,6 +181,11 @@ static uint32_t v_sample(int kind, uint64_t seed, int plane, int x, int y, int i
         int sub   = (int)(v_mix(seed + (uint64_t)scene) % 4);
         static const int kinds[4] = {VC_PAN, VC_RECTS, VC_GRADIENT, VC_SCREEN};
         return v_sample(kinds[sub], seed + (uint64_t)scene * 7919, plane, x, y, idx, w, h);
+    }
+    case VC_STILL: {
+        uint32_t t = v_tex(seed + (uint64_t)plane * 77, x, y);
+        uint32_t n = (uint32_t)(v_mix(seed ^ ((uint64_t)plane << 36) ^ ((uint64_t)(uint32_t)y << 16) ^ (uint32_t)x) & 31);
+        return (t * 7 / 8 + n) & 255;
     }
     case VC_SPLITV: return y < h / 2 ? v_sample(VC_NOISE, seed, plane, x, y, idx, w, h) : 128;
     case VC_SPLITH: return x < w / 2 ? v_sample(VC_NOISE, seed, plane, x, y, idx, w, h) : 128;
